@@ -16,6 +16,8 @@
 package quickfix
 
 import (
+	"bytes"
+
 	"github.com/quickfixgo/quickfix/datadictionary"
 )
 
@@ -387,8 +389,18 @@ func validateField(d *datadictionary.DataDictionary,
 
 	allowedValues := d.FieldTypeByTag[int(field.tag)].Enums
 	if len(allowedValues) != 0 {
-		if _, validValue := allowedValues[string(field.value)]; !validValue {
-			return ValueIsIncorrect(field.tag)
+		switch fieldType.Type {
+		case "MULTIPLESTRINGVALUE", "MULTIPLEVALUESTRING", "MULTIPLECHARVALUE":
+			// A space separated list: every element must be one of the enumerated values.
+			for _, value := range bytes.Split(field.value, []byte(" ")) {
+				if _, validValue := allowedValues[string(value)]; !validValue {
+					return ValueIsIncorrect(field.tag)
+				}
+			}
+		default:
+			if _, validValue := allowedValues[string(field.value)]; !validValue {
+				return ValueIsIncorrect(field.tag)
+			}
 		}
 	}
 
